@@ -215,7 +215,8 @@ def gen_end_failure(rng, n):
         else:
             fail = data + ([{"d": "", "e": 1}] if k % 2 else []) + [{"d": "", "e": e}]     # sometimes a retryable timeout first
             if k % 5 in (1, 2):            # the last bytes come TOGETHER with the end of the stream / the failure: Read returns (n > 0, err)
-                fail = data + [dict(rand_data(rng, rng.choice([1, 7, 300])), e=e)]
+                # (an adapter-wrapped end swallows an error that comes with data and asks again: only kinds that keep failing end it)
+                fail = data + [dict(rand_data(rng, rng.choice([1, 7, 300])), e=(3 if e == 5 else e))]
             w = (k // 2) % 4
             c = {"mode": "free", "limit": 0, "wrap0": bool(w & 1), "wrap1": bool(w & 2), "w0": [], "w1": [],
                  "r0": fail if which == 0 else [], "r1": fail if which == 1 else [], "end0": "hold", "end1": "hold", "sched": []}
@@ -244,7 +245,7 @@ def gen_cancel_in_wait(rng, n):
         chunk = [dict(rand_data(rng, rng.choice([8192, 12000])), e=0)]
         c = {"mode": "free", "limit": 1024, "return_ms": 1500, "w0": [], "w1": [], "sched": [], "wrap0": False, "wrap1": False,
              "r0": chunk if k % 2 == 0 else [], "r1": chunk if k % 2 else [],
-             "end0": "hold" if k % 2 == 0 else "eof", "end1": "eof" if k % 2 == 0 else "hold"}
+             "end0": "hold", "end1": "hold", "late_end": 1 if k % 2 == 0 else 0}    # the end that does NOT hold the chunk closes
         out.append(c)
     return out
 
@@ -389,6 +390,8 @@ def classify(c, o, sliced):
         return KNOWN_KEY
     if key == "reattach":
         return "reattach-bytes-to-stale-end" if "did not reach the attached source end" in (o.get("prop_msg") or "") else "reattach-tunnel-broken"
+    if key == "stuck" and "waiting for limiter tokens" in (o.get("prop_msg") or ""):
+        return "token-wait-not-aborted-by-closure"
     if key == "deadline":
         return "deadline-set-on-live-direction"
     if key == "closed-early":
